@@ -50,21 +50,44 @@ def run(rep, pdb, tier):
         full = r[1:5] == (num(0), n_t, False, False)
         rep.add("columns/%s" % short, "for i over the full range 0..n column i is stored with set_col(i, ..)", full and args[1] == i, c, "range %s..%s set_col(%s, ..)" % (show(r[1], ctx), show(r[2], ctx), show(args[1], ctx)))
         # ---- perturb / restore
-        effs = [e for e in effects(pdb, ctx, lp["body"]) if e.kind == "upd"]
+        effs = [e for e in effects(pdb, ctx, lp["body"]) if e.kind in ("upd", "set")]
         evals = [n for n in walk(lp["body"]) if n.get("k") == "Call" and strip(n["f"]).get("k") == "Local" and ctx.term(n["f"]) == P(1)]
-        okp, det = len(effs) == 2 and len(evals) == 1, "state updates=%d evaluations in loop=%d" % (len(effs), len(evals))
-        if okp:
-            up, dn = effs
+        okp, oke, det, dete = False, False, "state writes=%d evaluations in loop=%d" % (len(effs), len(evals)), ""
+        pert = None
+        if effs and len(evals) == 1 and len(effs) <= 2:
+            up = effs[0]
             st = up.target
             sb = ctx.binds.get(st[1]) if st[0] == "var" else None
             init_point = sb is not None and sb.init is not None and ctx.term(sb.init) == P(0)
+            fresh = init_point and any(a is lp for a in ancestors(sb.init))          # `let mut state = point.clone()` inside the loop
             ev = evals[0]
-            order = _pos(up.node) < _pos(ev) < _pos(dn.node)
-            okp = up.op == "+=" and dn.op == "-=" and up.target == dn.target and up.index == i and dn.index == i and is_delta(up.value, cplx) and is_delta(dn.value, cplx) and \
-                init_point and order and [ctx.term(a) for a in ev["args"]] == [st]
-            det = "state[i] += d; evaluate func(state.clone()); state[i] -= d, same index and step=%s state starts as point.clone()=%s order perturb<evaluate<restore (within the iteration)=%s" % (
-                up.index == i and dn.index == i and is_delta(up.value, cplx) and is_delta(dn.value, cplx), init_point, order)
-        rep.add("perturb-restore/%s" % short, "each iteration perturbs coordinate i by delta, evaluates, and restores it (same index, same delta) before the next perturbation", okp, lp, det)
+            old = ("idx", st, i)
+            # the perturbation: state[i] += d, or state[i] = <old value> + d
+            if up.kind == "upd":
+                pert_ok = up.op == "+=" and is_delta(up.value, cplx)
+            else:
+                v = up.value
+                pert_ok = v[0] == "op" and v[1] == "+" and ((_is_old(ctx, v[2], st, i, up.node) and is_delta(v[3], cplx)) or (_is_old(ctx, v[3], st, i, up.node) and is_delta(v[2], cplx)))
+            pert_ok = pert_ok and up.index == i and _pos(up.node) < _pos(ev) and [ctx.term(a) for a in ev["args"]] == [st]
+            pert = up if pert_ok else None
+            if len(effs) == 2:
+                dn = effs[1]
+                same = dn.target == st and dn.index == i and _pos(ev) < _pos(dn.node)
+                inverse = dn.kind == "upd" and dn.op == "-=" and is_delta(dn.value, cplx)
+                exact = dn.kind == "set" and _is_old(ctx, dn.value, st, i, up.node, direct=False)
+                okp = pert_ok and init_point and not fresh and same and (inverse or exact)
+                oke = okp and exact
+                det = "perturb state[i] by the step=%s state starts as point.clone()=%s restore of the same coordinate after the evaluation=%s" % (pert_ok, init_point, same and (inverse or exact))
+                dete = "restored by assigning the value saved before the perturbation" if exact else \
+                    "restored by subtracting the step: fl(fl(x + d) - d) differs from x whenever x + d rounds, and the drift stays in the point for every later column" if inverse else "no restore recognised"
+            else:
+                okp = pert_ok and fresh
+                oke = okp
+                det = "perturb state[i] by the step=%s on a copy of the point made afresh in every iteration=%s" % (pert_ok, fresh)
+                dete = "every iteration starts from a fresh copy of the point"
+        rep.add("perturb-restore/%s" % short, "each iteration perturbs coordinate i by delta, evaluates, and restores it (same index) before the next perturbation", okp, lp, det)
+        rep.add("restore-exact/%s" % short, "the coordinate is restored to exactly the value it had (saved copy assigned back, or a fresh copy of the point per iteration), not by arithmetic that only approximately undoes the perturbation",
+                oke, lp, dete)
         # ---- quotient
         q = args[2]
         okq, det = False, show(q, ctx)
@@ -78,7 +101,7 @@ def run(rep, pdb, tier):
             okq = base_ok and new_ok and len(outside) == 1 and _pos(outside[0]) < _pos(lp)
             det = "(f_new - f)/delta: base f = func(point) evaluated once before the loop=%s new value positive=%s" % (base_ok and len(outside) == 1, new_ok)
         rep.add("quotient/%s" % short, "the stored column is (f_new - f) / delta: new value positive, base value negative, divisor the perturbation step", okq, c, det)
-        sk.append((shape and ret, full and args[1] == i, okp, okq))
+        sk.append((shape and ret, full and args[1] == i, okp, oke, okq))
     # ---- callee: the column setter bounds its index by cols
     sc = pdb.fn(SETCOL)
     if sc is None:
@@ -93,9 +116,23 @@ def run(rep, pdb, tier):
     rep.floor("shape/", 2)
     rep.floor("columns/", 3)
     rep.floor("perturb-restore/", 2)
+    rep.floor("restore-exact/", 2)
     rep.floor("quotient/", 2)
     rep.assumptions += ["exactness for affine maps on dyadic data and O(delta) accuracy are numerical and not decided statically"]
     return {"index_sites": n_sites}
+
+
+def _is_old(ctx, t, st, i, before, direct=True):
+    """t is the value state[i] (or point[i]) had before the perturbation `before`: a let bound to it earlier, point[i],
+    or (direct, i.e. inside the perturbing statement itself) state[i]."""
+    if t == ("idx", P(0), i) or (direct and t == ("idx", st, i)):
+        return True
+    if t[0] == "var":
+        b = ctx.binds.get(t[1])
+        d = ctx.def_term(t)
+        if d is not None and b is not None and not b.mut and _pos(b.init) < _pos(before):
+            return _is_old(ctx, d, st, i, before, True)
+    return False
 
 
 def _pos(n):
